@@ -806,6 +806,42 @@ func nonEmptyGuard(b *ssa.BasicBlock, base ssa.Value) bool {
 	return nonEmpty(base)
 }
 
+// sameObj: the same value, also when it is read twice from the same field of the same struct value or object (go/ssa
+// does not share the two reads) and the function never stores into that field.
+func sameObj(a, b ssa.Value) bool {
+	a, b = stripConv(a), stripConv(b)
+	if a == b {
+		return true
+	}
+	fa, ok1 := a.(*ssa.Field)
+	fb, ok2 := b.(*ssa.Field)
+	if ok1 && ok2 {
+		return fa.Field == fb.Field && sameObj(fa.X, fb.X)
+	}
+	la, ok1 := a.(*ssa.UnOp)
+	lb, ok2 := b.(*ssa.UnOp)
+	if ok1 && ok2 && la.Op == token.MUL && lb.Op == token.MUL {
+		pa, ok1 := la.X.(*ssa.FieldAddr)
+		pb, ok2 := lb.X.(*ssa.FieldAddr)
+		if !ok1 || !ok2 || pa.Field != pb.Field || !(pa.X == pb.X || sameObj(pa.X, pb.X)) {
+			return false
+		}
+		written := false
+		allInstrs(la.Parent(), func(in ssa.Instruction) {
+			if st, ok := in.(*ssa.Store); ok {
+				if f2, ok := st.Addr.(*ssa.FieldAddr); ok && f2.Field == pa.Field && types.Identical(f2.X.Type(), pa.X.Type()) {
+					// a store that precedes both reads on every path (the initialisation) does not come between them
+					if !(instrAfter(st, la) && instrAfter(st, lb)) {
+						written = true
+					}
+				}
+			}
+		})
+		return !written
+	}
+	return false
+}
+
 func sameVal(a, b ssa.Value) bool {
 	if a == b {
 		return true
@@ -826,7 +862,7 @@ func lenGuarded(b *ssa.BasicBlock, idx, base ssa.Value) bool {
 		if !ok || !isLenOf(c, nil) {
 			return false
 		}
-		return stripConv(c.Call.Args[0]) == stripConv(base) || c.Call.Args[0] == base
+		return stripConv(c.Call.Args[0]) == stripConv(base) || c.Call.Args[0] == base || sameObj(c.Call.Args[0], base)
 	}
 	for _, a := range guardAtoms(b) {
 		bo, ok := a.V.(*ssa.BinOp)
